@@ -197,13 +197,18 @@ func c08(c *Ctx) {
 	if c.Mode == "race" {
 		plans = c.N(6, 20)
 	}
-	for p := 0; p < plans; p++ {
+	for p := 0; p < plans && !c08Hung.Load(); p++ {
 		c08Plan(c, p, T)
+	}
+	if c08Hung.Load() {
+		return // calls that never return hold whatever they hold: nothing after this can be judged
 	}
 	c08ServedInTurn(c, T)
 	c08Linearizable(c, T)
 	c08Hammer(c, T)
 }
+
+var c08Hung atomic.Bool
 
 func c08BuildFarm(c *Ctx, T time.Duration) *c08Farm {
 	f := &c08Farm{fm: farm.New(), T: T, times: map[[3]uint32][2]int64{}}
@@ -263,6 +268,9 @@ func c08Plan(c *Ctx, planNo int, T time.Duration) {
 		ctrls = append(ctrls, c08Ctrl{serialBase + 7, "tcp", f.tcp[1]})
 	} else {
 		ctrls[2] = c08Ctrl{serialBase + 3, "udp", f.udp[0]}
+		// a TCP controller that refuses the connection (nothing is ever connected, so TIME_WAIT does not come into it): its
+		// calls fail, and must leave the shared port usable for the calls queued behind them
+		ctrls = append(ctrls, c08Ctrl{serialBase + 8, "tcp-refused", nil})
 	}
 	cfg := ClientCfg{Broadcast: f.bcast.Addr, Timeout: T, Listen: ""}
 	cfg.Bind = "127.0.0.1:0"
@@ -275,7 +283,9 @@ func c08Plan(c *Ctx, planNo int, T time.Duration) {
 		cfg.Bind = fmt.Sprintf("127.0.0.1:%d", port)
 	}
 	for _, ct := range ctrls {
-		if ct.path != "broadcast" {
+		if ct.path == "tcp-refused" {
+			cfg.Devices = append(cfg.Devices, DevCfg{ID: ct.serial, Addr: fmt.Sprintf("127.0.0.1:%d", freePort("127.0.0.1")), Proto: "tcp", NewDevice: true})
+		} else if ct.path != "broadcast" {
 			cfg.Devices = append(cfg.Devices, DevCfg{ID: ct.serial, Addr: ct.ep.Addr, Proto: ct.path, NewDevice: true})
 		}
 	}
@@ -357,8 +367,19 @@ func c08Plan(c *Ctx, planNo int, T time.Duration) {
 		c08ListenCycle(c, planNo)
 	}()
 	close(startGate)
-	wg.Wait()
-	side.Wait()
+	finished := make(chan struct{})
+	go func() { wg.Wait(); side.Wait(); close(finished) }()
+	// every call is bounded by T once it holds the port: N*K calls in a row on one port is the worst case
+	limit := T*time.Duration(N*K+4) + 20*time.Second
+	select {
+	case <-finished:
+	case <-time.After(limit):
+		c.Res.Eval(1)
+		c.Res.Violate("C08:hang", fmt.Sprintf("plan %d (%d goroutines x %d calls, fixed bind port=%v): calls had not returned %v after the start (every call is bounded by T=%v once it has the port; %d calls in flight)", planNo, N, K, fixed, limit, T, inflight.Load()),
+			map[string]any{"plan": planNo, "fixed_port": fixed, "goroutines": N, "in_flight": inflight.Load(), "library_goroutine": truncateStr(func() string { _, g := libraryGoroutines(); return g }(), 2500)}, int64(planNo))
+		c08Hung.Store(true)
+		return
+	}
 	c.Res.Max("max:in-flight-calls", maxInflight.Load())
 
 	// ---- judge
